@@ -18,5 +18,6 @@ pub mod post;
 pub mod types;
 pub mod util;
 
+pub mod k1_lib;
 mod k2_insert;
 mod k2_remove;
